@@ -64,6 +64,7 @@ ENUM = [
     ("unit_mul", "Unit"),
 ]
 QUICK_ENUM = 5  # the quick tier enumerates the first five (one per class as target, plus constituents)
+QUICK_LEAVES = 1200
 MAX_SCHEDULE = 5000
 
 W = None  # world
@@ -420,7 +421,10 @@ def enumerate_cases(tier):
     del ENUM_STATS[:]
     for kind, focus in (ENUM[:QUICK_ENUM] if tier == "quick" else ENUM):
         tree = sched.ScheduleTree(limit=200000)
-        stat = {"kind": kind, "focus": f"{focus}.__new__", "window": None, "interleavings": 0, "complete": False}
+        # the quick tier walks at most QUICK_LEAVES leaves of each tree (depth-first order);
+        # the thorough tier always completes the enumeration
+        cap = QUICK_LEAVES if tier == "quick" else None
+        stat = {"kind": kind, "focus": f"{focus}.__new__", "window": None, "interleavings": 0, "complete": False, "capped_at": None}
         for w in WINDOWS.values():
             if w.cls_name == focus:
                 stat["window"] = w.describe()
@@ -433,6 +437,9 @@ def enumerate_cases(tier):
                 run_case(case)
             prefix = tree.next(_LAST["decisions"])
             stat["interleavings"] = tree.leaves
+            if cap is not None and tree.leaves >= cap and prefix is not None:
+                stat["capped_at"] = cap
+                break
         stat["complete"] = tree.complete
 
 
@@ -452,7 +459,7 @@ def vacuity(col):
         if not col.classes.get(f"switch-inside:{c}.__new__"):
             missing.append(f"no schedule switched threads inside {c}.__new__'s check-then-insert window")
     for s in ENUM_STATS:
-        if not s["complete"]:
+        if not s["complete"] and not s.get("capped_at"):
             missing.append(f"exhaustive enumeration of {s['kind']}/{s['focus']} did not complete")
     if not ENUM_STATS:
         missing.append("exhaustive enumeration did not run")
